@@ -17,6 +17,8 @@
 //   alloc    : aligned_allocator<T>::allocate(n) on a boundary grid of n around max_size()
 //   release  : LeakSanitizer check at the end of every shard (mm_asan) / no address-space growth over
 //              256 MiB worth of malloc/free cycles (tbb)
+#include <initializer_list>
+#include <type_traits>
 #include "common/vreport.h"
 
 #include "rkcommon/containers/AlignedVector.h"
@@ -400,6 +402,14 @@ struct E72
 {
   uint64_t a[9];
 };
+// an element type that can also be built from a braced list of its own kind (like a container of
+// type-erased values): copying it must copy, not wrap.  Trivially copyable, so the byte-wise model applies.
+struct Nest16
+{
+  uint32_t id, depth, pad[2];
+  Nest16() : id(0), depth(0) { pad[0] = pad[1] = 0; }
+  Nest16(std::initializer_list<Nest16> l) : id(l.begin()->id), depth(l.begin()->depth + 1) { pad[0] = pad[1] = 0; }
+};
 
 template <typename T>
 static T make_val(unsigned serial)
@@ -538,7 +548,7 @@ struct VecCheck
   }
 };
 
-static const int VEC_SIZES[] = {1, 4, 8, 24, 72};
+static const int VEC_SIZES[] = {1, 4, 8, 24, 72, 16};  // allocate() grid: the first five; vector histories: all six
 
 static int run_vec(int ti, const int *ops, int n, const std::string &replay)
 {
@@ -547,7 +557,8 @@ static int run_vec(int ti, const int *ops, int n, const std::string &replay)
   case 1: return VecCheck<uint32_t>::run(ops, n, replay);
   case 2: return VecCheck<uint64_t>::run(ops, n, replay);
   case 3: return VecCheck<E24>::run(ops, n, replay);
-  default: return VecCheck<E72>::run(ops, n, replay);
+  case 4: return VecCheck<E72>::run(ops, n, replay);
+  default: return VecCheck<Nest16>::run(ops, n, replay);
   }
 }
 
@@ -561,8 +572,8 @@ static std::string vec_text(int ti, const int *ops, int n)
 
 static void vec_part(int D)
 {
-  static_assert(sizeof(E24) == 24 && sizeof(E72) == 72, "element sizes");
-  const int NS = 5 * V_NOPS;
+  static_assert(sizeof(E24) == 24 && sizeof(E72) == 72 && sizeof(Nest16) == 16 && std::is_trivially_copyable<Nest16>::value, "element sizes");
+  const int NS = 6 * V_NOPS;
   vr::run_sharded(NS, [&](int shard, long long resume_after) {
     int ti = shard / V_NOPS, first = shard % V_NOPS;
     int ops[16];
@@ -746,7 +757,7 @@ static void huge_part()
 // =====================================================================================
 static int type_index(int size)
 {
-  for (int i = 0; i < 5; i++)
+  for (int i = 0; i < 6; i++)
     if (VEC_SIZES[i] == size)
       return i;
   return -1;
